@@ -516,8 +516,10 @@ def table_sizes():
 
         def on_open(self, name):
             return None
+    import os
+    ddir = os.path.join(os.path.dirname(L.coeffs.__file__), "data")
     for nm in tables.ALL_NAMES:
-        with L.orig_resource_stream("pytorch_wavelets.dtcwt.data", nm + ".npz") as f:
+        with open(os.path.join(ddir, nm + ".npz"), "rb") as f:
             data = f.read()
         c = Cnt()
         st = seams.FaultyStream(data, c, nm)
